@@ -149,7 +149,8 @@ def units(tier, seed):
     # configurations on a real thread pool and a real process pool (free
     # running, completion order not controlled - not part of the exhaustive
     # claim, it binds the pool model to what real executors do)
-    for cfg in pool_cfgs:
+    for cfg in pool_cfgs + [("grid6", "greedy+random", "limit-8", ()),
+                            ("ring5", "greedy", "combo-256", ())]:
         us.append(("realpool", cfg[0], cfg[1], cfg[2], (cfg[3], reps,
                                                         "threads"), tier, seed))
         if "failing" not in cfg[1]:
@@ -207,7 +208,7 @@ def make_opt(ms, mz, post, max_repeats, parallel, optlib="random",
         max_time=max_time, **kw, **okw)
 
 
-def check_search(opt, tree, q, max_repeats, trials=None):
+def check_search(opt, tree, q, max_repeats, trials=None, mz=None):
     inputs, output, sd = q
     bad = []
     if tuple(map(tuple, tree.inputs)) != tuple(inputs) or \
@@ -247,6 +248,22 @@ def check_search(opt, tree, q, max_repeats, trials=None):
     for k in ("flops", "write", "size"):
         if rs[k] != st[k]:
             bad.append((f"tree-{k}-differs-from-rebuilt-tree", st[k], rs[k]))
+    # the recorded best score is the requested objective's score of the
+    # returned tree (evaluated here, in this process)
+    if mz is not None:
+        try:
+            want_score = ctg.scoring.get_score_fn(mz)(
+                {"tree": tree, "flops": st["flops"], "write": st["write"],
+                 "size": st["size"]})
+            # (as recorded: compressed by the optimizer's exponent, plus a
+            # gaussian smudge of width 1e-6)
+            want_score = want_score ** getattr(opt, "score_compression",
+                                               0.75)
+            if abs(want_score - opt.best["score"]) > 1e-4:
+                bad.append(("best-score-is-not-the-objective-of-the-tree",
+                            opt.best["score"], want_score))
+        except Exception as e:  # noqa
+            bad.append(("objective-raises-on-returned-tree", repr(e)[:100]))
     if len({len(opt.scores), len(opt.costs_flops), len(opt.costs_write),
             len(opt.costs_size), len(opt.method_choices),
             len(opt.param_choices)}) != 1:
@@ -315,7 +332,18 @@ def work(unit):
                 try:
                     opt = make_opt(ms, mz, post, 4, False, optlib)
                     tree = opt.search(*q)
-                    bad = check_search(opt, tree, q, 4)
+                    bad = check_search(opt, tree, q, 4,
+                                       mz=mz if not post else None)
+                    if not bad and not post:
+                        # the same object asked again: again at most
+                        # max_repeats NEW trials, best still the minimum
+                        n0 = len(opt.scores)
+                        tree = opt.search(*q)
+                        if len(opt.scores) - n0 > 4:
+                            bad.append(("more-trials-than-requested-on-"
+                                        "reuse", len(opt.scores) - n0, 4))
+                        if opt.best["score"] != min(opt.scores):
+                            bad.append(("best-is-not-the-minimum-on-reuse",))
                     if len(set(opt.scores)) > 1:
                         res.key((net, ms, mz, post, optlib))
                     res.outcomes.add(hash(tuple(opt.scores)))
@@ -352,7 +380,8 @@ def work(unit):
                 with pool:
                     opt = make_opt(ms, mz, post, reps, pool)
                     tree = opt.search(*q)
-                bad = check_search(opt, tree, q, reps)
+                bad = check_search(opt, tree, q, reps,
+                                   mz=mz if not post else None)
                 res.transitions += len(opt.scores)
                 res.outcomes.add(hash(("real", ptype, tuple(opt.scores))))
             except Exception as e:
